@@ -43,6 +43,10 @@ func NewRPCError(oErr OrdaError) error {
 		c = codes.Internal
 	case ServerBadRequest:
 		c = codes.InvalidArgument
+	default:
+		// any other error (e.g. one of a datatype rebuilt from the store) still is an error:
+		// with the zero code status.Error would return nil and the caller would answer nothing
+		c = codes.Internal
 	}
 	return status.Error(c, oErr.Error())
 }
